@@ -226,6 +226,7 @@ def check_case(case):
     with warnings.catch_warnings():
         warnings.simplefilter("ignore")
         m = coreops.build_model(spec)
+        fbagen.prior_history(m, case.get("history"))
         rl = [m.reactions.get_by_id(r) if case["as_objects"] else r for r in want]
         try:
             res = flux_variability_analysis(m, reaction_list=rl, fraction_of_optimum=float(fraction),
@@ -290,7 +291,7 @@ def gen_case(rng):
     return {"spec": spec, "fraction": rng.choice(["1", "1", "1/2", "9/10", "0", "1/4"]),
             "pfba_factor": rng.choice([None, None, None, "1", "11/10", "2"]),
             "reactions": rng.sample(rids, k) if rng.random() < 0.6 else rids, "as_objects": rng.random() < 0.5,
-            "loopless": rng.random() < 0.3}
+            "loopless": rng.random() < 0.3, "history": rng.choice(fbagen.HISTORIES)}
 
 
 def aux_stage(ctx):
